@@ -1088,7 +1088,7 @@ impl QueryRouter {
                     }
                 }
 
-                Expr::Value(Value::Placeholder(placeholder)) => {
+                Expr::Value(Value::Placeholder(placeholder)) if found => {
                     match placeholder.replace('$', "").parse::<i16>() {
                         Ok(placeholder) => result.push(ShardingKey::Placeholder(placeholder)),
                         Err(_) => {
